@@ -38,9 +38,11 @@ def main():
     if not m:
         fail("container_from_stream not found")
     body = m.group(0)
+    # comments are not code
+    body = re.sub(r"//[^\n]*", "", body)
     lits = re.findall(r'Some\("([^"]+)"\)', body)
     # every `return` in the function must be `None` or a Some("literal") form we understand
-    returns = re.findall(r"return\s+([^;]+);", body)
+    returns = re.findall(r"\breturn\s+([^;,\n]+)[;,]", body)
     for r in returns:
         r = r.strip()
         if r == "None" or re.fullmatch(r'Some\("[^"]+"\)', r) or r.startswith("if is_flac"):
